@@ -152,6 +152,38 @@ fn model_decl(name: &str, derives: &str, fts: &[(String, Ty)], is_class: bool) -
     s
 }
 
+/// The fields of `M` spread over a chain of classes `B0 <- B1 <- M` (`splits` = number of fields per level, root
+/// first); the flattened declaration order is the order of `fts`.
+fn chain_decl(derives: &str, fts: &[(String, Ty)], splits: &[usize]) -> String {
+    let mut s = String::new();
+    let mut at = 0usize;
+    for (li, n) in splits.iter().enumerate() {
+        let name = if li + 1 == splits.len() { "M".to_string() } else { format!("B{li}") };
+        if !derives.is_empty() { s.push_str(&format!("@derive({derives})\n")); }
+        if li == 0 { s.push_str(&format!("class {name}:\n")); } else { s.push_str(&format!("class {name} extends B{}:\n", li - 1)); }
+        for (k, t) in &fts[at..at + n] { s.push_str(&format!("    {k}: {}\n", ty_src(t))); }
+        s.push_str(&format!("\n    def tag(self) -> int:\n        return {li}\n\n"));
+        at += n;
+    }
+    s
+}
+/// A composition of `n` into 2 or 3 positive parts (None when n < 2).
+fn gen_splits(r: &mut Rng, n: usize) -> Option<Vec<usize>> {
+    if n < 2 { return None; }
+    let parts = if n >= 3 && r.chance(1, 2) { 3 } else { 2 };
+    let mut cuts: Vec<usize> = Vec::new();
+    while cuts.len() < parts - 1 {
+        let c = 1 + r.below(n as u64 - 1) as usize;
+        if !cuts.contains(&c) { cuts.push(c); }
+    }
+    cuts.sort();
+    let mut out = Vec::new();
+    let mut prev = 0;
+    for c in cuts { out.push(c - prev); prev = c; }
+    out.push(n - prev);
+    Some(out)
+}
+
 const MK: &str = "def mk(x: str) -> str:\n    return x\n\n";
 
 fn gen_struct(r: &mut Rng, kind: u32, float_ok: bool) -> (Ty, Ty) {
@@ -195,14 +227,18 @@ pub fn run(out: &mut Out, tier: &str, seed: u64, _scratch: &str) {
         let eqd = if has(&t, &|x| matches!(x, Ty::Float)) { "PartialEq" } else { "Eq" };
         let is_class = i % 5 == 4;
         let mut src = format!("{MK}{}", inner_decl(&format!("Serialize, Deserialize, {eqd}")));
-        src.push_str(&model_decl("M", &format!("Serialize, Deserialize, {eqd}"), fts, is_class));
+        let splits = if i % 4 == 3 { gen_splits(&mut rng, fts.len()) } else { None };
+        match &splits {
+            Some(sp) => src.push_str(&chain_decl(&format!("Serialize, Deserialize, {eqd}"), fts, sp)),
+            None => src.push_str(&model_decl("M", &format!("Serialize, Deserialize, {eqd}"), fts, is_class)),
+        }
         let mut pre = Vec::new();
         let mut ctr = 0;
         let vs = val_src(&v, &t, &mut pre, &mut ctr);
         src.push_str("def main() -> None:\n");
         for p in &pre { src.push_str(&format!("    {p}\n")); }
         src.push_str(&format!("    v = {vs}\n    j = json_stringify(v)\n    println(j)\n    match M.from_json(j):\n        Ok(w) => println(f\"{{w == v}}\")\n        Err(e) => println(e)\n"));
-        reqs.push(format!("c20 json {} {}", e_ty(&t), e_val(&v)));
+        reqs.push(format!("c20 json {} {}{}", e_ty(&t), e_val(&v), splits.map(|sp| format!(" chain:{}", sp.iter().map(|x| x.to_string()).collect::<Vec<_>>().join(","))).unwrap_or_default()));
         cases.push(Case { name: String::new(), source: src });
     }
     // comparison / ordering
@@ -213,7 +249,11 @@ pub fn run(out: &mut Out, tier: &str, seed: u64, _scratch: &str) {
         let w = gen_near(&mut rng, &t, &v);
         let derives = ["Ord", "Eq, Ord", "PartialOrd, Ord", "Eq, PartialEq, PartialOrd, Ord"][i % 4];
         let mut src = format!("{MK}{}", inner_decl(derives));
-        src.push_str(&model_decl("M", derives, fts, false));
+        let splits = if i % 3 == 2 { gen_splits(&mut rng, fts.len()) } else { None };
+        match &splits {
+            Some(sp) => src.push_str(&chain_decl(derives, fts, sp)),
+            None => src.push_str(&model_decl("M", derives, fts, false)),
+        }
         let mut pre = Vec::new();
         let mut ctr = 0;
         let vs = val_src(&v, &t, &mut pre, &mut ctr);
@@ -221,7 +261,7 @@ pub fn run(out: &mut Out, tier: &str, seed: u64, _scratch: &str) {
         src.push_str("def main() -> None:\n");
         for p in &pre { src.push_str(&format!("    {p}\n")); }
         src.push_str(&format!("    v = {vs}\n    w = {ws}\n    println(f\"{{v == w}} {{v != w}} {{v < w}} {{v <= w}} {{v > w}} {{v >= w}}\")\n"));
-        reqs.push(format!("c20 cmp {} {} {}", e_ty(&t), e_val(&v), e_val(&w)));
+        reqs.push(format!("c20 cmp {} {} {}{}", e_ty(&t), e_val(&v), e_val(&w), splits.map(|sp| format!(" chain:{}", sp.iter().map(|x| x.to_string()).collect::<Vec<_>>().join(","))).unwrap_or_default()));
         cases.push(Case { name: String::new(), source: src });
     }
     // hashing: dict keys
